@@ -370,9 +370,11 @@ func (rn *runner) prepare(q *query) *query {
 	for _, ix := range rn.s.Idx {
 		all = append(all, ix.Cols)
 	}
-	perm := rn.r.Perm(len(all))
-	for _, i := range perm[:min(4, len(all))] {
-		p.forced = append(p.forced, all[i])
+	// the primary key always, and three of the secondary indexes
+	p.forced = append(p.forced, all[0])
+	perm := rn.r.Perm(len(all) - 1)
+	for _, i := range perm[:min(3, len(all)-1)] {
+		p.forced = append(p.forced, all[1+i])
 	}
 	if q.Join != "" && len(q.JoinIdx) > 0 {
 		p.rforced = q.JoinIdx[rn.r.IntN(len(q.JoinIdx))]
